@@ -22,6 +22,9 @@
 #include <string>
 #include <unordered_set>
 #include <vector>
+#include <csignal>
+#include <fcntl.h>
+#include <unistd.h>
 
 #ifndef VF_CLO
 #define VF_CLO 1
@@ -536,6 +539,14 @@ std::string jsonEscape(const std::string& s) { std::string o; for (char c : s) {
 
 }  // namespace
 
+// ---- watchdog: a container operation sequence that does not return within the alarm (normal: microseconds) is saved (async-signal-safe)
+//      and the process exits with 97; the driver confirms the hang three times through `replay` before it reports it
+static uint8_t g_wdSeq[65536]; static size_t g_wdLen = 0; static char g_wdPath[600] = {0};
+static void onAlarm(int) {
+	if (g_wdPath[0]) { const int fd = open(g_wdPath, O_WRONLY | O_CREAT | O_TRUNC, 0644); if (fd >= 0) { ssize_t r = write(fd, g_wdSeq, g_wdLen); (void) r; close(fd); } }
+	_exit(97);
+}
+
 int main(int argc, char** argv) {
 	if (argc < 2) return 2;
 	std::string what = argv[1];
@@ -548,7 +559,9 @@ int main(int argc, char** argv) {
 		const Seq s = decodeSeq(d);
 		if (s.cap < VF_CLO || s.cap > VF_CHI) { printf("capacity %d not in this shard\n", s.cap); return 3; }
 		Fail F; bool nt = false;
+		signal(SIGALRM, onAlarm); alarm(10);
 		runOne(what, s, F, nt);
+		alarm(0);
 		printf("%s\n", renderSeq(what.c_str(), s).c_str());
 		if (F.failed) { printf("VIOLATION: %s\n", F.msg.c_str()); return 1; }
 		printf("PASS\n");
@@ -568,6 +581,8 @@ int main(int argc, char** argv) {
 	if (caps.empty()) { if (!statsPath.empty()) { std::ofstream o(statsPath); o << "{\"evaluations\": 0, \"distinct_nontrivial\": 0, \"failed\": false, \"samples\": [], \"caps\": {}}\n"; } return 0; }
 	static Seq lastFail; static std::string lastMsg; static bool have = false;
 	size_t capCursor = 0;
+	snprintf(g_wdPath, sizeof g_wdPath, "%s/%s-%s-hang.seq", outDir.c_str(), what.c_str(), tag.c_str());
+	signal(SIGALRM, onAlarm);
 	const bool ok = rc::check(what, [&]() {
 		Seq s;
 		// capacities are enumerated round-robin (every capacity of the shard is exercised), the operations are generated
@@ -575,7 +590,10 @@ int main(int argc, char** argv) {
 		s.aux = *rng<int>(0, 1024);
 		s.ops = *rc::gen::container<std::vector<Op>>(rc::gen::exec([&]() { Op o; o.kind = *rng<int>(0, 42); o.a = *rng<int>(0, 1024); o.b = *rng<int>(0, 256); o.c = *rng<int>(0, 256); return o; }));
 		Fail F; bool nt = false;
+		{ const auto wb = encodeSeq(s); g_wdLen = wb.size() < sizeof g_wdSeq ? wb.size() : sizeof g_wdSeq; memcpy(g_wdSeq, wb.data(), g_wdLen); }
+		alarm(20);
 		runOne(what, s, F, nt);
+		alarm(0);
 		++g_st.evals; ++g_st.caps[s.cap];
 		if (nt) { ++g_st.nontrivial; g_st.distinct.insert(hashSeq(s)); if (g_st.samples.size() < 2 && g_st.nontrivial % 53 == 1) g_st.samples.push_back(renderSeq(what.c_str(), s)); }
 		if (F.failed) { lastFail = s; lastMsg = F.msg; have = true; RC_FAIL(F.msg); }
